@@ -118,7 +118,7 @@ def run(ctx):
     mk = [n for n in wc.live_nodes() for c in calls_in(n) if norm(c.func) == "_instantiated_parameter"]
     if deleg and mk and all(cond_holds(wc.conditions(n), "obj is not None", True) or cond_holds(wc.conditions(n), "obj is None", False) for n in deleg):
         nxt = [t for d in deleg for l, t in d.succ if l == "n"]
-        if nxt and all(t.kind == "stmt" and isinstance(t.ast, ast.Return) for t in nxt):
+        if nxt and all(t.kind == "stmt" and isinstance(t.ast, ast.Return) and t.ast.value is None for t in nxt):
             ctx.ok("R12.d", w, deleg[0], "delegates to the per-instance Parameter's __set__ and returns")
         else:
             ctx.fail("R12.d", w, deleg[0], "after delegating to the per-instance Parameter the wrapper falls through to the class Parameter's setter as well")
